@@ -979,6 +979,37 @@ def check_C19(ctx):
     from props import judge_sentences
     st_c = judge_sentences(ctx, comp_cases, res_c, "C19")
     ctx.stream("custom type in company", 0, **st_c)
+    # the same types declared through the positional API (cmd.VarOpt / cmd.VarArg), which knows no environment,
+    # no SetByUser and no HideValue
+    for isbool, clear, isdef, boolfalse in combos:
+        cu = {"isbool": isbool, "clear": clear, "isdef": isdef, "isdefval": rng.random() < 0.5}
+        if boolfalse:
+            cu["isboolfalse"] = True
+        flag = isbool and not boolfalse
+        for isopt in (True, False):
+            for n in (0, 1, 2, 3):
+                for rep in range(ctx.scale(2, 6)):
+                    bound = [rng.choice(toks) for _ in range(n)]
+                    d = (gen.mkopt if isopt else gen.mkarg)("custom", "x val" if isopt else "ARG", custom=dict(cu), conv=True)
+                    if isopt:
+                        argv, real = [], []
+                        for t in bound:
+                            if flag and rng.random() < 0.4:
+                                argv.append(rng.choice(["-x", "--val"]))
+                                real.append("true")
+                            elif not flag and rng.random() < 0.5:
+                                argv += rng.choice([["-x", t], ["--val", t], ["-x" + t]])
+                                real.append(t)
+                            else:
+                                argv.append(rng.choice(["-x=" + t, "--val=" + t]))
+                                real.append(t)
+                        bound = real
+                        spec = "[-x...]"
+                    else:
+                        argv, spec = list(bound), "[ARG...]"
+                    root = gen.mkcmd("app", decls=[d], spec=spec, policy=0)
+                    cases.append({"op": "run", "env": {}, "version": None, "root": root, "argv": argv,
+                                  "_cu": cu, "_env": [None, None], "_bound": bound})
     res = correspond(ctx, cases, ["outcome", "trace", "values", "logs", "sbu"], "custom types x env x command lines")
     stats = {"accepted": 0, "set_error": 0}
     for c in cases:
